@@ -179,14 +179,24 @@ class DocGen:
         pad2 = "" if r.random() < 0.5 else " "
         if not single_line and self.multiline_open and r.random() < self.multiline_open:
             pad2 = r.choice(["\n", "\n", " \n", "\n "])      # the end delimiter on a line of its own
-        return self.ds + pad + name + "".join(sep + a for a in attrs) + pad2 + self.de
+        body = name
+        for k, a in enumerate(attrs):
+            # an attribute glued to the closing quote of the value in front of it is still an attribute
+            glued = k > 0 and attrs[k - 1][-1:] in ('"', "'") and r.random() < 0.06
+            body += ("" if glued else sep) + a
+        return self.ds + self.doubled() + pad + body + pad2 + self.de
+
+    def doubled(self):
+        """rarely a second copy of the start delimiter in front of the tag body (`<<marker …>`, `[[marker]]`): the tag
+        parser strips every leading copy"""
+        return self.ds if (self.rng.random() < 0.03 and not self.strict_unwrap) else ""
 
     def close_tag(self, name):
         pad = "" if self.rng.random() < 0.5 else " "
         pad2 = pad
         if self.multiline_close and self.rng.random() < self.multiline_close:
             pad2 = self.rng.choice(["\n", "\n ", " \n", "\n\n"])     # a closing tag that spans lines
-        return self.ds + pad + "/" + name + pad2 + self.de
+        return self.ds + self.doubled() + pad + "/" + name + pad2 + self.de
 
     def pick_kind(self, kinds):
         k = self.rng.choice(kinds)
